@@ -321,7 +321,7 @@ def run(tier):
     chk.sample({'case': c.id, 'cells': [cc['name'] for cc in c.meta['spec']['cells']], 'queries': c.meta['queries'],
                 'top_cell_references': c.meta['spec']['cells'][c.meta['top']]['refs'][:2]})
     chk.rule = ('hierarchies of 2-4 cells (polygons, multi-element flexible and robust paths with offsets, labels, every repetition kind on elements and '
-                'references, rotations incl. non-multiples of 90 degrees, reflections, magnifications, by-name references to absent cells), at most 300 '
+                'references, rotations incl. non-multiples of 90 degrees, reflections, magnifications (negative ones on half of the cell references of every third hierarchy), by-name references to absent cells), at most 300 '
                 'flattened instances; per library 13 queries on the top cell (get_polygons with repetitions applied/attached, depth 0/1/2/-1, tag filter, '
                 'without paths; get_labels applied/attached/filtered; get_flexpaths; get_robustpaths; Reference::get_polygons), then deep copy + '
                 'mutate + free, then flatten and query again. Oracle: the spec flattened by hand; polygon sets matched vertex by vertex (1e-9), '
